@@ -9,7 +9,9 @@ Oracle: an INDEPENDENT decision procedure for the pattern language (Brzozowski
 derivatives over the harness' own AST, built by the harness' own precedence parser
 or by the enumerator - neither the NFA model nor the code's parser), compared with
 what the real Matcher answers per prefix: accepted / rejected, is_complete(),
-valid_next_symbols().
+valid_next_symbols().  The oracle's own predictions (accepted, complete) are also
+compared with the Directed model inside Coq - the model is PROVED to implement
+`lang`, so this ties the Python oracle to the Coq definition of the language.
 """
 import ast as pyast
 import copy
@@ -500,6 +502,28 @@ def oracle_check(orc, r, obs, extra_alphabet=()):
     return out
 
 
+def oracle_predict(orc, r, plan):
+    """What the pattern language says the Matcher must answer on this plan: pre-order
+    list of is_complete + 2 * accepted (None where nothing is stated)."""
+    syms = tuple(sorted(syms_of(r))) + (FRESH,)
+    D0 = conv(desugar(r))
+    if not orc.viable(D0, syms):
+        return None
+    out = []
+
+    def go(D, ok, plan):
+        out.append((1 if orc.ends(D) else 0) + (2 if ok else 0))
+        for s, sub in plan:
+            D2 = orc.d(D, s)
+            if orc.viable(D2, syms):
+                go(D2, True, sub)
+            else:
+                go(D, False, sub)  # rejected: the Matcher does not advance
+
+    go(D0, True, plan)
+    return out
+
+
 # ----------------------------------------------------------------------------------
 def real_pattern_strings(sr):
     """level patterns of the CSV and every pattern-looking string literal of the package"""
@@ -690,7 +714,10 @@ def run(ctx):
             coq_cases.append([coq_tokens(names, toks), []])
             meta.append((kind, pat, r, obs))
         d, syms = plan_shape(plan)
-        coq_cases[idx][1].append("(%d%%nat,%s,%s)" % (d, clist([names(x) for x in syms]), clist(obs_codes(names, obs))))
+        hyp = r is not None and eos_ok(desugar(r))
+        pred = oracle_predict(orc, r, plan) if hyp else None
+        coq_cases[idx][1].append("(%d%%nat,%s,%s,%s)" % (d, clist([names(x) for x in syms]), clist(obs_codes(names, obs)),
+                                                      clist(pred) if pred else "[]"))
         flat = []
         def walk(o):
             for s, ok, k in o[2]:
@@ -699,7 +726,6 @@ def run(ctx):
         walk(obs)
         nodes = len(flat) + 1
         nontrivial = any(flat) and not all(flat)
-        hyp = r is not None and eos_ok(desugar(r))
         ctx.count(nodes, key=("m", pat) if nontrivial else None, bucket=kind.split(":")[0] + (":hyp" if hyp else ":nohyp"))
         if idx < 3 or kind.startswith("real") and len(ctx.samples) < 6 and d == 0:
             ctx.sample({"pattern": pat, "kind": kind, "plan": [d, syms], "is_complete_at_start": obs[0], "valid_next_at_start": obs[1]})
@@ -714,17 +740,25 @@ def run(ctx):
     ctx.extra["oracle_patterns"] = n_oracle
     ctx.exhaustive = True
 
-    bad_dir = ctx.coq_check_cases("matcher_directed", imports, "chk_matcher Directed", coq_cases, shard=ctx.pick(130, 200), timeout=1500)
+    sh = ctx.pick(130, 200)
+    bad_any = ctx.coq_check_cases("matcher", imports, "chk_case Directed 2", coq_cases, ty="case_t", shard=sh, timeout=2400)
     mode = "directed"
-    bad_sym = []
-    if bad_dir is None:
-        bad_dir = []
-    if bad_dir:
-        sub = [coq_cases[i] for i in bad_dir]
-        bs = ctx.coq_check_cases("matcher_symmetric", imports, "chk_matcher Symmetric", sub, shard=120, timeout=1200)
-        bad_sym = [bad_dir[i] for i in (bs or [])]
-        if bs is not None and not bad_sym:
-            mode = "symmetric"
+    bad_dir, bad_sym, bad_orc = [], [], []
+    if bad_any:
+        sub = [coq_cases[i] for i in bad_any]
+        b0 = ctx.coq_check_cases("matcher_impl_vs_directed", imports, "chk_case Directed 0", sub, ty="case_t", shard=sh, timeout=2400)
+        b1 = ctx.coq_check_cases("matcher_oracle_vs_directed", imports, "chk_case Directed 1", sub, ty="case_t", shard=sh, timeout=2400)
+        bad_dir = [bad_any[i] for i in (b0 or [])]
+        bad_orc = [bad_any[i] for i in (b1 or [])]
+        if bad_dir:
+            bs = ctx.coq_check_cases("matcher_impl_vs_symmetric", imports, "chk_case Symmetric 0", [coq_cases[i] for i in bad_dir],
+                                     ty="case_t", shard=sh, timeout=2400)
+            bad_sym = [bad_dir[i] for i in (bs or [])]
+            if bs is not None and not bad_sym:
+                mode = "symmetric"
+    if bad_orc:
+        ctx.obligation("corr:language oracle agrees with the Directed model (proved equal to lang)", False, "corr-shard",
+                       "the harness' derivative oracle and the model differ on %r" % [meta[i][1] for i in bad_orc[:8]])
     ctx.extra["eps_mode_of_working_tree"] = mode if not bad_sym else "neither"
     ctx.note("working tree follows empty transitions: %s (%d of %d cases differ from the Directed model, %d of those also from the Symmetric model)"
              % (ctx.extra["eps_mode_of_working_tree"], len(bad_dir), len(coq_cases), len(bad_sym)))
